@@ -140,6 +140,37 @@ def consumers(ctx, rule, only=None):
 
 
 
+def builders_stay(ctx, rule):
+    """outside finish() nothing takes a directory's GitignoreBuilder (or its node) out of the trie (shared with C14)"""
+    facts = ctx.facts
+    n_fn = 0
+    for fn in facts.crate_fns("ignore_files"):
+        if not fn.def_.startswith("ignore_files::filter::"):
+            continue
+        n_fn += 1
+        owner = fn.def_.split("::{closure")[0].split("::")[-1]
+        root = thir.root(fn)
+        if root is None:
+            continue
+        for c, nd in thir.calls_in(root):
+            sg = strip_generics(c)
+            if pathx.is_tracing(nd):
+                continue
+            if sg.endswith(("Option::take", "mem::take", "mem::replace", "Option::replace", "Option::take_if")) and nd["a"] and pathx.desc(nd["a"][0]).endswith("builder"):
+                ctx.violation(rule, "builder-taken:" + owner, "IgnoreFilter::%s takes the GitignoreBuilder out of its trie node (%s): an error return before it is put back "
+                              "leaves the directory without a builder, and later ignore files of that directory are silently not compiled" % (owner, pathx.desc(nd["a"][0])),
+                              fn.loc(nd["l"]))
+            if sg.startswith("radix_trie::") and sg.split("::")[-1] in ("remove", "remove_ancestor", "remove_subtrie"):
+                ctx.violation(rule, "node-removed:" + owner, "IgnoreFilter::%s removes a node from the trie: an error return before it is re-inserted loses the "
+                              "directory's patterns" % owner, fn.loc(nd["l"]))
+        for a in thir.find(root, "assign"):
+            if pathx.desc(a["a"]).endswith(".builder") and owner != "finish":
+                ctx.violation(rule, "builder-overwritten:" + owner, "IgnoreFilter::%s overwrites a node's builder in place" % owner, fn.loc(a["l"]))
+    ctx.floor(rule, "functions of ignore_files::filter scanned", n_fn, 10)
+    ctx.ok(rule, "builders-stay", "no function of ignore_files::filter other than finish() takes or clears a node's builder, none removes a node")
+
+
+
 def run(ctx):
     ctx.level = "other"
     facts = ctx.facts
@@ -328,31 +359,7 @@ def run(ctx):
 
     # ---- R03.7 nothing takes a builder / node out of the trie
     try:
-        n_fn = 0
-        for fn in facts.crate_fns("ignore_files"):
-            if not fn.def_.startswith("ignore_files::filter::"):
-                continue
-            n_fn += 1
-            owner = fn.def_.split("::{closure")[0].split("::")[-1]
-            root = thir.root(fn)
-            if root is None:
-                continue
-            for c, nd in thir.calls_in(root):
-                sg = strip_generics(c)
-                if pathx.is_tracing(nd):
-                    continue
-                if sg.endswith(("Option::take", "mem::take", "mem::replace", "Option::replace", "Option::take_if")) and nd["a"] and pathx.desc(nd["a"][0]).endswith("builder"):
-                    ctx.violation("R03.7", "builder-taken:" + owner, "IgnoreFilter::%s takes the GitignoreBuilder out of its trie node (%s): an error return before it is put back "
-                                  "leaves the directory without a builder, and later ignore files of that directory are silently not compiled" % (owner, pathx.desc(nd["a"][0])),
-                                  fn.loc(nd["l"]))
-                if sg.startswith("radix_trie::") and sg.split("::")[-1] in ("remove", "remove_ancestor", "remove_subtrie"):
-                    ctx.violation("R03.7", "node-removed:" + owner, "IgnoreFilter::%s removes a node from the trie: an error return before it is re-inserted loses the "
-                                  "directory's patterns" % owner, fn.loc(nd["l"]))
-            for a in thir.find(root, "assign"):
-                if pathx.desc(a["a"]).endswith(".builder") and owner != "finish":
-                    ctx.violation("R03.7", "builder-overwritten:" + owner, "IgnoreFilter::%s overwrites a node's builder in place" % owner, fn.loc(a["l"]))
-        ctx.floor("R03.7", "functions of ignore_files::filter scanned", n_fn, 10)
-        ctx.ok("R03.7", "builders-stay", "no function of ignore_files::filter other than finish() takes or clears a node's builder, none removes a node")
+        builders_stay(ctx, "R03.7")
     except Skip:
         pass
 
